@@ -29,6 +29,7 @@ class Result:
         self.assumptions = []
         self.notes = []
         self.floors = []          # (name, measured, floor)
+        self.floor_failures = []
 
     def violation(self, key, what, detail=None):
         self.violations.append({"key": key, "what": what, "detail": detail})
@@ -37,7 +38,8 @@ class Result:
         """fail closed when an anchor count falls below what was confirmed by hand"""
         self.floors.append((name, measured, floor))
         if measured < floor:
-            raise Inconclusive("anchor count %s = %d below floor %d (code moved or analysis blind)" % (name, measured, floor))
+            # reported at the end: a violation found on the same run takes precedence over the low count
+            self.floor_failures.append("anchor count %s = %d below floor %d (code moved or analysis blind)" % (name, measured, floor))
 
 
 def load_known():
@@ -100,6 +102,10 @@ def main(pid, level, fn, argv=None):
             new.append(v)
     for v in seen_known:
         print("KNOWN-FINDING: property=%s %s :: %s" % (pid, v["key"], v["what"]))
+    if res.floor_failures and not new:
+        for ff in res.floor_failures:
+            print("INCONCLUSIVE property=%s %s" % (pid, ff))
+        sys.exit(3)
     replay = None
     if new:
         rdir = os.path.join(EVIDENCE_DIR, "replay")
